@@ -381,7 +381,7 @@ def correspondence(ctx):
         b = BASES.index(basis)
         defs += "Definition %s : prog := %s.\nDefinition G_%s : genparams := %s.\n" % (name, coq_prog(nops), name, G)
         evals += coq_eval(tag, name, "generation_prog %d %d G_%s" % (b, n, name), "generation_inputs",
-                          ", forallb block_ok (gen_blocks G_%s), length (g_shapes G_%s), length (g_rounds G_%s)" % (name, name, name))
+                          ", forallb block_ok (gen_blocks G_%s), List.length (g_shapes G_%s), List.length (g_rounds G_%s)" % (name, name, name))
         meta[tag] = dict(kind="gen", nops=len(nops), nshapes=tr["nshapes"], nround=tr["nround"], basis=basis, n=n,
                          expect="None, (true, true, true, true, true, %d, %d)" % (tr["nshapes"], tr["nround"]))
         rep.case(key=tag, sample={"stage": "generation", "basis": basis, "n": n, "trace_ops": len(nops),
